@@ -5,3 +5,4 @@ cd "$(dirname "$0")/engine"
 export GOFLAGS=-mod=vendor GOPROXY=off GOSUMDB=off GOTOOLCHAIN=local
 mkdir -p ../bin
 go build -o ../bin/symgo .
+cd .. && ./check selftest || echo "WARNING: differential self-test failed"
